@@ -117,7 +117,7 @@ pub fn build_group(c: &Case) -> Group {
         }
         t.body.push(marker(&format!("[{}]", path)));
         for u in &spec.uses {
-            t.body.push(Node::Tis(Tis { is: Val::Static(format!("t{}", (u % 3) + 1)), data: None }));
+            t.body.push(Node::Tis(Tis { is: Val::Static(format!("t{}", (u % 3) + 1)), data: None, data_expr: None }));
         }
         for r in &spec.includes {
             // only forward includes (no cycles)
